@@ -221,8 +221,8 @@ def server_cases():
 # relay client side
 # =====================================================================================
 
-CLIENT_STAGES = ['connect', 'banner', 'EHLO', 'STARTTLS', 'TLS-handshake', 'TLS-immediate', 'EHLO2', 'AUTH', 'MAIL', 'RCPT', 'DATA', 'EOD',
-                 'RSET', 'QUIT']
+CLIENT_STAGES = ['connect', 'banner', 'EHLO', 'HELO', 'STARTTLS', 'TLS-handshake', 'TLS-immediate', 'EHLO2', 'AUTH', 'MAIL', 'RCPT', 'DATA',
+                 'EOD', 'RSET', 'QUIT']
 
 
 class StallPeer(object):
@@ -265,7 +265,11 @@ class StallPeer(object):
                 if not line:
                     return
                 verb = line.split(b' ')[0].strip().upper()
-                if verb in (b'EHLO', b'LHLO'):
+                if verb == b'EHLO' and c['stage'] == 'HELO':
+                    self.sock.sendall(b'500 5.5.1 command not recognized\r\n')      # the client falls back to HELO
+                elif verb == b'HELO':
+                    self.reply('HELO', b'250 peer\r\n')
+                elif verb in (b'EHLO', b'LHLO'):
                     nehlo += 1
                     exts = [b'8BITMIME']
                     if c['pipelining']:
@@ -484,6 +488,8 @@ def client_cases():
                 for mode in ('silent', 'trickle'):
                     if stage == 'connect' and mode == 'trickle':
                         continue
+                    if stage == 'HELO' and kind == 'lmtp':
+                        continue
                     for nrcpt in (1, 2):
                         if nrcpt == 2 and stage not in ('RCPT', 'EOD', 'DATA'):
                             continue
@@ -501,8 +507,18 @@ def client_cases():
 # pipe and HTTP
 # =====================================================================================
 
+_PIPE_SEQ = [0]
+
+
 def run_pipe_case(case, watchdog):
-    relay = PipeRelay(['/bin/sh', '-c', 'cat >/dev/null; sleep 30'], timeout=0.1)
+    _PIPE_SEQ[0] += 1
+    nap = 'sleep 3333.%d%03d' % (os.getpid(), _PIPE_SEQ[0])       # unique, so that the clean-up of one case cannot rescue another
+    prog = 'cat >/dev/null; ' + nap
+    if case.get('child') == 'ignores-term':
+        prog = "trap '' TERM; cat >/dev/null; " + nap       # a delivery program that cannot be asked politely to stop
+    elif case.get('child') == 'no-stdin-read':
+        prog = nap
+    relay = PipeRelay(['/bin/sh', '-c', prog], timeout=0.1)
     relay.per_recipient = case['per_recipient']
     env = c11.make_env(2 if case['per_recipient'] else 1, 'p')
     got = AsyncResult()
@@ -524,7 +540,7 @@ def run_pipe_case(case, watchdog):
         verdicts, bad = c11.classify_result(c11.Raised(res) if kind == 'exc' else res, list(env.recipients))
         if bad or any(v != 'temp' for v in verdicts.values()):
             out.append(('C14:stalled-attempt-not-transient:pipe', '%r: %r' % (case, res)))
-    os.system('pkill -f "sleep 30" >/dev/null 2>&1')
+    os.system('pkill -9 -f "%s" >/dev/null 2>&1' % ('[s]' + nap[1:]).replace('.', '[.]'))
     return out, True
 
 
@@ -665,6 +681,8 @@ def other_cases():
             yield {'family': 'http-reuse', 'first': first, 'mode': mode}
     for per in (True, False):
         yield {'family': 'pipe', 'per_recipient': per}
+        yield {'family': 'pipe', 'per_recipient': per, 'child': 'ignores-term'}
+        yield {'family': 'pipe', 'per_recipient': per, 'child': 'no-stdin-read'}
     for mode in ('silent', 'trickle', 'trickle-headers'):
         yield {'family': 'http', 'mode': mode}
 
